@@ -3,7 +3,7 @@ CONSTANTS
   Options <- OptsSeq
   Elements <- ElemsSeq
   FixedInputs <- NoInputs
-  MaxLen = 5
+  MaxLen = 6
   MaxBlob = 33554432
   GateSize = 31876710
   MaxEntities = 8000
